@@ -97,6 +97,8 @@ def task(W, payload):
     if variant == "rename":
         # two mixing-carrying stratifications and an infection flow: the renaming below REVERSES the alphabetical order of the stratification names
         opts.mixing_pair_bias = 0.6; opts.force_infection = True
+    if variant == "perm" and (payload["index"] // len(VARIANTS)) % 2 == 1:
+        opts.force_strat = True      # (the shared-object half of the permutation variant needs a stratification to share)
     if variant in ("order", "swap"): opts.allow_post_flows = False
     if variant == "swap": opts.max_strats = 2; opts.force_strat = True
     g = Gen(r, opts)
@@ -120,7 +122,7 @@ def task(W, payload):
             i = max(j, i + 1)
         # every second time the two presentations SHARE their Stratification objects (scenario models built from common building blocks do):
         # the strata order is then kept, and age stratifications and stratifications carrying a mixing matrix (both validated against the compartment ORDER) are not shared
-        share_mode = r.random() < 0.5
+        share_mode = (payload["index"] // len(VARIANTS)) % 2 == 1
         if share_mode:
             bump(out, "perm:shared_stratification_objects")
             for i_, (o0, o1) in enumerate(zip(ops, ops1)):
